@@ -38,12 +38,12 @@ func treePlan(tier string, smallProfile string) []core.Segment {
 	segs := []core.Segment{
 		{Gen: "spec", Count: gen.CorpusSize(), Exhaustive: true, Desc: "spec 0.30 examples + repo fuzz seeds + harvested corpus"},
 		{Gen: "specprefix", Count: gen.PrefixCount(), Exhaustive: true, Desc: "every prefix of every corpus document"},
-		{Gen: "lines", Profile: "default", Count: scale(tier, 400_000, 16_000_000), Desc: "line-structured documents, inline constructs split across lines inside containers"},
-		{Gen: "lines", Profile: "hostile", Count: scale(tier, 100_000, 4_000_000), Desc: "the same with NUL / invalid UTF-8 / CR / tab bytes overwritten"},
-		{Gen: "soup", Profile: "default", Count: scale(tier, 300_000, 12_000_000), Desc: "atom soup"},
-		{Gen: "soup", Profile: "inline", Count: scale(tier, 150_000, 6_000_000), Desc: "atom soup, inline-heavy"},
-		{Gen: "soup", Profile: "hostile", Count: scale(tier, 50_000, 2_000_000), Desc: "atom soup with NUL, CR, invalid UTF-8"},
-		{Gen: "specmut", Count: scale(tier, 200_000, 8_000_000), Desc: "mutated / spliced / container-wrapped corpus documents"},
+		{Gen: "lines", Profile: "default", Count: scale(tier, 1_000_000, 16_000_000), Desc: "line-structured documents, inline constructs split across lines inside containers"},
+		{Gen: "lines", Profile: "hostile", Count: scale(tier, 300_000, 4_000_000), Desc: "the same with NUL / invalid UTF-8 / CR / tab bytes overwritten"},
+		{Gen: "soup", Profile: "default", Count: scale(tier, 800_000, 12_000_000), Desc: "atom soup"},
+		{Gen: "soup", Profile: "inline", Count: scale(tier, 500_000, 6_000_000), Desc: "atom soup, inline-heavy"},
+		{Gen: "soup", Profile: "hostile", Count: scale(tier, 150_000, 2_000_000), Desc: "atom soup with NUL, CR, invalid UTF-8"},
+		{Gen: "specmut", Count: scale(tier, 500_000, 8_000_000), Desc: "mutated / spliced / container-wrapped corpus documents"},
 		{Gen: "patho", Count: gen.PathoCount(), Exhaustive: true, Desc: "pathological templates x sizes up to 16 KiB"},
 	}
 	if smallProfile != "" {
